@@ -97,4 +97,78 @@ theorem gen_emit_known_types (j : Bool) :
 /-- the default encoder escapes with a backslash -/
 theorem gen_escape_char : Otel.Gen.C05.escapeChar = 92 := by decide
 
+/-! ### key filters and the encoder's escaping -/
+
+/-- `NewAllowKeysFilter` / `NewDenyKeysFilter`: an empty key list short-circuits to the constant filter (deny all /
+allow all); otherwise the filter is (non-)membership in the set built from ALL the keys -/
+theorem gen_key_filters_table (n : Int) (hn : 0 ≤ n) :
+    Otel.Gen.C05.allowKeysFilter n = (if n ≤ 0 then ("const false", []) else ("member(allowed)", ["allowed=set(keys)"])) ∧
+    Otel.Gen.C05.denyKeysFilter n = (if n ≤ 0 then ("const true", []) else ("not member(forbid)", ["forbid=set(keys)"])) := by
+  unfold Otel.Gen.C05.allowKeysFilter Otel.Gen.C05.denyKeysFilter
+  by_cases h : n ≤ 0 <;> simp [h] <;> (try omega) <;> (repeat' split) <;> (try simp_all) <;> omega
+
+/-- what a leaf of the generated filter constructors denotes in the model -/
+def interpFilter (leaf : String × List String) (keys : List Bytes) : KV → Bool :=
+  if leaf.1 = "const false" then fun _ => false
+  else if leaf.1 = "const true" then fun _ => true
+  else if leaf.1 = "member(allowed)" then fun kv => keys.contains kv.key
+  else fun kv => !keys.contains kv.key
+
+/-- the two constructors as written today are the model's `allowKeysFilter` / `denyKeysFilter`, empty list included -/
+theorem gen_key_filters_eq_model (keys : List Bytes) :
+    allowKeysFilter keys = interpFilter (Otel.Gen.C05.allowKeysFilter (keys.length : Int)) keys ∧
+    denyKeysFilter keys = interpFilter (Otel.Gen.C05.denyKeysFilter (keys.length : Int)) keys := by
+  have h := gen_key_filters_table (keys.length : Int) (by omega)
+  rw [h.1, h.2]
+  unfold allowKeysFilter denyKeysFilter interpFilter
+  cases keys with
+  | nil => simp
+  | cons k ks =>
+    have h1 : ¬ ((k :: ks).length ≤ 0) := by simp
+    have h2 : ¬ (((k :: ks).length : Int) ≤ 0) := by simp only [List.length_cons]; omega
+    simp only [if_neg h1, if_neg h2]
+    constructor <;> simp
+
+/-- one iteration of `copyAndEscape`: the escape character is written before the rune exactly for '=', ',' and the
+escape character itself (the three runes of the model's `escape`), and the rune is always written -/
+theorem gen_copy_and_escape_step (ch : Int) :
+    Otel.Gen.C05.copyAndEscapeStep ch =
+      ("<end>", (if ch = 0x3D ∨ ch = 0x2C ∨ ch = 0x5C then ["write(escapeChar)"] else []) ++ ["write(ch)"]) := by
+  unfold Otel.Gen.C05.copyAndEscapeStep
+  by_cases h : (ch = 0x3D ∨ ch = 0x2C ∨ ch = 0x5C) <;> simp [h] <;> (try omega) <;> (repeat' split) <;> (try simp_all) <;> omega
+
+/-! ### MergeIterator.Next -/
+
+/-- apply one effect of a path of the generated `MergeIterator.Next` to the model's iterator state -/
+def applyEffect (m0 : MergeIt) (m : MergeIt) (e : String) : MergeIt :=
+  if e = "current=one" then { m with current := m0.one.attr }
+  else if e = "current=two" then { m with current := m0.two.attr }
+  else if e = "advanceOne" then { m with one := m0.one.advance }
+  else if e = "advanceTwo" then { m with two := m0.two.advance }
+  else m
+
+def interpMergeNext (leaf : String × List String) (m : MergeIt) : MergeIt × Bool :=
+  (leaf.2.foldl (applyEffect m) m, leaf.1 == "true")
+
+/-- the decision table of `MergeIterator.Next`: both done → false; one side done → take the other; equal keys → the
+FIRST iterator's attribute wins and both advance; otherwise the smaller key is taken -/
+theorem gen_merge_next_table (oneDone twoDone keysEqual oneLess : Bool) :
+    Otel.Gen.C05.mergeNext oneDone twoDone keysEqual oneLess =
+      (if oneDone && twoDone then ("false", [])
+       else if oneDone then ("true", ["current=two", "advanceTwo"])
+       else if twoDone then ("true", ["current=one", "advanceOne"])
+       else if keysEqual then ("true", ["current=one", "advanceOne", "advanceTwo"])
+       else if oneLess then ("true", ["current=one", "advanceOne"])
+       else ("true", ["current=two", "advanceTwo"])) := by
+  cases oneDone <;> cases twoDone <;> cases keysEqual <;> cases oneLess <;> rfl
+
+/-- `MergeIterator.Next` as written today is the model's `MergeIt.next` -/
+theorem gen_merge_next_eq_model (m : MergeIt) :
+    m.next = interpMergeNext (Otel.Gen.C05.mergeNext m.one.done m.two.done (m.one.attr.key == m.two.attr.key)
+                                (bLt m.one.attr.key m.two.attr.key)) m := by
+  rw [gen_merge_next_table]
+  unfold MergeIt.next interpMergeNext
+  cases m.one.done <;> cases m.two.done <;> cases (m.one.attr.key == m.two.attr.key) <;>
+    cases (bLt m.one.attr.key m.two.attr.key) <;> simp [applyEffect]
+
 end Otel.C05.GenTie
